@@ -181,11 +181,15 @@ def norm(tree, ord=2):
     from jax.numpy.linalg import norm
 
     def el_norm(x):
-        if jnp.ndim(x) == 0:
+        if jnp.ndim(x) == 0 and ord != 0:
             return jnp.abs(x)
         return norm(_ravel(x), ord=ord)
 
-    return norm(jnp.array(tree_leaves(tree_map(el_norm, tree))), ord=ord)
+    leaf_norms = jnp.array(tree_leaves(tree_map(el_norm, tree)))
+    if ord == 0:
+        # The per-leaf results are counts of non-zero entries; these add up
+        return jnp.sum(leaf_norms)
+    return norm(leaf_norms, ord=ord)
 
 
 @deprecated("`nifty.re.dot` is deprecated. Consider using `nifty.re.vdot`.")
